@@ -527,7 +527,8 @@ func mkRunnerLines(lines []string) (res []mkRes, ok bool) {
 	}) || runner == nil {
 		return nil, false
 	}
-	for range lines {
+	kept := make([]*ysgo.DialogueElement, len(lines)) // the host keeps what it was given (a backlog)
+	for i := range lines {
 		var r mkRes
 		if !guarded(func() {
 			el, err := runner.Next(0)
@@ -537,6 +538,7 @@ func mkRunnerLines(lines []string) (res []mkRes, ok bool) {
 			case el == nil || el.Line == nil:
 				r = mkFail("desync")
 			default:
+				kept[i] = el
 				r = mkConvertResult(&el.Line.ParseResult)
 			}
 		}) {
@@ -546,6 +548,20 @@ func mkRunnerLines(lines []string) (res []mkRes, ok bool) {
 			return nil, false
 		}
 		res = append(res, r)
+	}
+	// ... and looks at it again later: every result is still what it was when it was returned
+	for i, el := range kept {
+		if el == nil {
+			continue
+		}
+		var again mkRes
+		if !guarded(func() { again = mkConvertResult(&el.Line.ParseResult) }) {
+			again = mkFail("panic")
+		}
+		if mkCanon(again) != mkCanon(res[i]) || mkStr(again.Text) != mkStr(res[i].Text) {
+			again.Later = true
+			res[i] = again
+		}
 	}
 	return res, true
 }
